@@ -543,6 +543,48 @@ def targeted_edits(toks, rng):
             out.append(("empty-testlist", i, toks[:i + 1] + [b")"] + toks[i + 1:]))
     if len(out) > 80:
         out = rng.sample(out, 80)
+    return out + bracket_edits(toks, rng)
+
+
+CLOSERS = [b")", b"]", b"}"]
+OPENERS = [b"(", b"[", b"{"]
+
+
+def bracket_edits(toks, rng, cap=60):
+    """Mismatched-bracket mutants that keep the COUNTS balanced (two cooperating edits): a
+    closer of the wrong kind put where a token stands or between two tokens, followed at once
+    or later by an opener, so that only a parser that matches bracket KINDS rejects them."""
+    n = len(toks)
+    out = []
+    for i in range(1, n + 1):
+        for c in CLOSERS:
+            for o in OPENERS:
+                # wrong closer + opener inserted between two tokens
+                out.append(("closer+opener", i, toks[:i] + [c, o] + toks[i:]))
+                if i < n and toks[i] in (b";", b",") :
+                    out.append(("sep->closer+opener", i, toks[:i] + [c, o] + toks[i + 1:]))
+    for i, t in enumerate(toks):
+        if t in CLOSERS:
+            for c in CLOSERS:
+                if c != t:
+                    # closer kinds swapped pairwise with a later closer
+                    for j in range(i + 1, n):
+                        if toks[j] in CLOSERS and toks[j] != t:
+                            m = list(toks)
+                            m[i], m[j] = toks[j], t
+                            out.append(("closers-swapped", i, m))
+                            break
+        if t in OPENERS:
+            for o in OPENERS:
+                if o != t:
+                    for j in range(i + 1, n):
+                        if toks[j] in OPENERS and toks[j] != t:
+                            m = list(toks)
+                            m[i], m[j] = toks[j], t
+                            out.append(("openers-swapped", i, m))
+                            break
+    if len(out) > cap:
+        out = rng.sample(out, cap)
     return out
 
 
